@@ -140,6 +140,9 @@ def rename_program(prog, rho):
         if op in ('AddVariable', 'SetRHS'):
             st['name'] = rename_ident(st['name'], rho)
             st['eqn'] = rename_text(st.get('eqn', ''), rho)
+        elif op == 'AddTerm':
+            st['name'] = rename_ident(st['name'], rho)
+            st['term'] = rename_text(st['term'], rho)
         elif op == 'AddSupplier':
             st['eqn'] = rename_text(st.get('eqn', ''), rho)
         elif op in ('Exogenous', 'IC', 'RegisterCashFlow', 'GetName'):
@@ -270,7 +273,7 @@ def recountry(prog, mapping, drop_global=True):
         if st['op'] == 'SetAttr' and isinstance(st.get('value'), str) and st['value'].startswith('@'):
             cc, code = st['value'][1:].split('.', 1)
             st['value'] = '@' + mapping[cc][0] + '.' + code
-        for key in ('eqn', 'value'):
+        for key in ('eqn', 'value', 'term'):
             if key in st and isinstance(st[key], str):
                 st[key] = re.sub(r'\{([A-Za-z0-9_]+)\.([A-Za-z0-9_]+):', lambda m: '{%s.%s:' % (mapping[m.group(1)][0], m.group(2)), st[key])
         if st['op'] == 'AssetWeighting':
@@ -395,20 +398,30 @@ def run(rep):
     cfg = 'MC_ModelBuild_quick.cfg' if rep.tier == 'quick' else 'MC_ModelBuild_thorough.cfg'
     bps, behs = modelcheck.generate(rep, cfg)
     good = [b for b in behs if bps[b['name']]['wellformed']]
-    chosen = modelcheck.sample_behaviours(good, bps, 45 if rep.tier == 'quick' else 900, rep.seed)
+    chosen = modelcheck.sample_behaviours(good, bps, 40 if rep.tier == 'quick' else 900, rep.seed)
+    # the token-wise renamer needs original codes without '_' (the renamed twins SIMR / SIMEXR are themselves the
+    # result of a renaming and are covered by the TLC run and by the other model checks)
+    def plain(bp):
+        return all('_' not in d['code'] and '_' not in d['good'] and '_' not in d['lab'] for d in bp['sectors'])
+    chosen = [b for b in chosen if plain(bps[b['name']])]
     jobs = [(bps[b['name']], b['decl'], rep.seed) for b in chosen]
     # embedding: economies with a single currency and no external sector
     singles = [n for n in sorted(bps) if bps[n]['wellformed'] and bps[n]['external'] == 'none'
-               and len({c['cur'] for c in bps[n]['countries']}) == 1 and not n.startswith('JOIN')]
+               and len({c['cur'] for c in bps[n]['countries']}) == 1 and not n.startswith('JOIN') and plain(bps[n])]
     rnd = random.Random(rep.seed)
     ejobs = []
     n_embed = 14 if rep.tier == 'quick' else 260
     by = {}
     for b in good:
         by.setdefault(b['name'], []).append(b)
+    forced = [('SIMMARGIN', 'SIMCAP'), ('SIMCAP', 'SIM'), ('TWOBUS', 'SIMEX'), ('PC', 'SIMCAP'), ('FED', 'TWOGIFTS'),
+              ('SIMBOND', 'MULTI'), ('SIMDEP', 'SIMMON')]
+    forced = [f for f in forced if all(n in singles for n in f)]
     for i in range(n_embed):
         k = 2 if rnd.random() < 0.7 else 3
         names = [rnd.choice(singles) for _ in range(k)]
+        if i < len(forced):
+            names = list(forced[i])
         members = [(bps[n], rnd.choice(sorted(by[n], key=lambda b: b['decl']))['decl']) for n in names]
         ejobs.append((members, rep.seed + i, rnd.random() < 0.5))
     with concurrent.futures.ProcessPoolExecutor(max_workers=16) as ex:
